@@ -261,3 +261,116 @@ def ob_d(ob):
                     raise HarnessError("dof reuse counterexample did not reproduce")
                 return
             ob.verdict(v, lab)
+
+
+MEMO_PRELUDE = '''
+import seqm.seqm_functions.two_elec_two_center_int as TE
+
+def _scp(*a):
+    return sum((0.37 + 0.11 * k) * float(x) for k, x in enumerate(a))
+
+def _pick(x, lo, hi):
+    # one solver-decided branch per value: the selectors stay symbolic for CrossHair, everything downstream is concrete
+    for k in range(lo, hi + 1):
+        if x == k:
+            return k
+    raise ValueError(x)
+
+def memo_violations(cat, z, qn0, i, scale_pct):
+    """fill the module-level PM6 d-parameter cache with one job's key, then ask for a key that differs in component i:
+    the answer must be what an empty cache gives"""
+    cat, i = _pick(cat, 0, 1), _pick(i, 0, 10)
+    saved = (TE.GetSlaterCondonParameter, TE.AIJL, dict(TE._PM6_D_PARAM_CACHE))
+    TE.GetSlaterCondonParameter = _scp
+    TE.AIJL = _scp
+    try:
+        base = ["PM6", "AB"[cat], z, qn0, 1.9, 1.6, 1.2, 2.1, 1.7, 1.3, 0.0]
+        other = list(base)
+        if i == 0:
+            other[0] = "PM6_SP"
+        elif i == 1:
+            other[1] = "AB"[1 - cat]
+        elif i in (2, 3):
+            other[i] = base[i] + 1
+        elif i == 10:
+            other[10] = 0.5 + scale_pct / 100.0
+        else:
+            other[i] = base[i] * (1.0 + scale_pct / 100.0)
+        k1, k2 = TE._pm6_d_param_key(*base), TE._pm6_d_param_key(*other)
+        TE._PM6_D_PARAM_CACHE.clear()
+        fresh = TE._pm6_d_param_from_key(k2)
+        TE._PM6_D_PARAM_CACHE.clear()
+        TE._pm6_d_param_from_key(k1)
+        after = TE._pm6_d_param_from_key(k2)
+        again = TE._pm6_d_param_from_key(k2)
+        bad = []
+        if tuple(after) != tuple(fresh):
+            bad.append("after a job with key %r the d-orbital terms for key %r are %r, a fresh process gives %r" % (k1, k2, after, fresh))
+        if tuple(again) != tuple(fresh):
+            bad.append("repeated request differs")
+        return bad
+    finally:
+        TE.GetSlaterCondonParameter, TE.AIJL = saved[0], saved[1]
+        TE._PM6_D_PARAM_CACHE.clear()
+        TE._PM6_D_PARAM_CACHE.update(saved[2])
+'''
+
+
+def replay_memo(cat, z, qn0, i, scale_pct):
+    ns = {}
+    exec(MEMO_PRELUDE, ns)
+    bad = ns["memo_violations"](cat, z, qn0, i, scale_pct)
+    for b in bad:
+        print("  ", b[:400])
+    return bool(bad)
+
+
+@obligation(PID, "e", title="memoisation is transparent: the module-level cache of PM6 d-orbital one-centre terms returns, for every request, what an empty cache returns — whatever job filled it before (every component of the request varied: method, category, element, quantum number, each exponent, G2SD)")
+def ob_e(ob):
+    from seqm.seqm_functions import two_elec_two_center_int as TE
+    from engine import chrun
+
+    ob.encodes(TE._pm6_d_param_from_key, TE._pm6_d_param_key)
+    ob.bound("category in {A,B} and the index of the varied component in [0,10] symbolic ints (selectors); element S/Br (Z=16, 35), quantum number 3 and 4, variation of 15 percent concrete")
+    ob.assume("Slater-Condon and AIJL integrals replaced by one injective linear recorder of their arguments (their formulas are not under test here)")
+    sls = []
+    for z, qn0 in ((16, 3), (35, 4)):
+        sls.append(chrun.Slice("memo_%d" % z, MEMO_PRELUDE, "cat: int, i: int", "0 <= cat <= 1 and 0 <= i <= 10", "return memo_violations(cat, %d, %d, i, 15) == []" % (z, qn0), "_", 200))
+        sls[-1].meta = dict(z=z, qn0=qn0)
+    tw = chrun.Slice("twin_memo", MEMO_PRELUDE, "cat: int, i: int", "0 <= cat <= 1 and 0 <= i <= 10", "return memo_violations(cat, 16, 3, i, 15) == [] and not (i == 6 and cat == 0)", "_", 200)
+    tw.meta = dict(z=16, qn0=3)
+    res = chrun.run_slices(sls + [tw], jobs=3)
+    for s_, r in zip(sls + [tw], res):
+        ob.paths += 1
+        ob.ch_conditions += 1
+        ob.ch_definite += r["verdict"] in ("confirmed", "counterexample")
+        if s_.name == "twin_memo":
+            if r["verdict"] != "counterexample":
+                raise HarnessError("twin_memo: expected the planted counterexample, got %s" % r["verdict"])
+            continue
+        ob.sample({"slice": s_.name, "pre": s_.pre, "verdict": r["verdict"], "seconds": r["seconds"], "call": r.get("call")})
+        if r["verdict"] == "confirmed":
+            ob.discharged("e:" + s_.name)
+        elif r["verdict"] == "counterexample":
+            vals = chrun.parse_int_args(r["args"])
+            kw = dict(cat=vals[0], z=s_.meta["z"], qn0=s_.meta["qn0"], i=vals[1], scale_pct=15)
+            print("counterexample from CrossHair:", r["call"])
+            if replay_memo(**kw):
+                ob.violation("PM6 d-orbital parameter cache returns a previous job's terms for a request that differs in component %d (category %s, Z=%d)" % (kw["i"], "AB"[kw["cat"]], kw["z"]), {"module": "harness.C15", "func": "replay_memo", "args": kw})
+            else:
+                raise HarnessError("memoisation counterexample did not reproduce: %s" % r["call"])
+        elif r["verdict"] == "inconclusive":
+            ob.inconclusive("e:memo")
+        else:
+            raise HarnessError("crosshair failed on memo:\n%s" % r["raw"][-1000:])
+
+
+# ---- shared obligation: a reused Langevin driver equals a fresh one only if its thermostat coefficients are recomputed from the current molecule and settings at every initialisation ----
+from . import C12 as _C12_mod  # noqa: E402
+
+
+@obligation(PID, "f", title="[shared with C12.a] " + [e for e in __import__("engine.ob", fromlist=["REGISTRY"]).REGISTRY["C12"] if e[1] is _C12_mod.ob_a][0][3])
+def ob_f_shared(ob):
+    """a reused Langevin driver equals a fresh one only if its thermostat coefficients are recomputed from the current molecule and settings at every initialisation"""
+    ob.note("this obligation is the one registered as C12.a; it is also decided here because a reused Langevin driver equals a fresh one only if its thermostat coefficients are recomputed from the current molecule and settings at every initialisation")
+    _C12_mod.ob_a(ob)
